@@ -1,6 +1,7 @@
 import Zrnt.Driver.Loop
 import Zrnt.Beacon.Spec.Transition
 import Zrnt.Beacon.Impl.Epoch
+import Zrnt.Beacon.Impl.Pipeline
 /-!
 `zmodel c02`. Every op line is  `<op> [<sub>] key=value …`  where the key=value tokens are the flat
 pre-state, the configuration constants and the op's extra inputs:
@@ -58,9 +59,26 @@ def renderDbg (r : SM State) : String :=
   | .ok s => "ok " ++ printState s
   | .error e => "error " ++ reprStr e
 
+/-- The `EpochInputs` of the pure pipelines, obtained the way the monadic functions obtain them; the computed sync
+committee is read off the monadic result `post` (it is the new `next_sync_committee` at a period boundary). -/
+def epochInputsOf (cfg : Config) (s post : State) : SM EpochInputs := do
+  let prevAtts ← if s.fork = .phase0 then resolve_attestations cfg s (get_previous_epoch cfg s) else pure []
+  let currAtts ← if s.fork = .phase0 then resolve_attestations cfg s (get_current_epoch cfg s) else pure []
+  let roots ← justification_inputs cfg s
+  let boundary := (get_current_epoch cfg s + 1) % cfg.EPOCHS_PER_SYNC_COMMITTEE_PERIOD = 0
+  pure { prevAtts := prevAtts, currAtts := currAtts,
+         prevRoot := (roots.map (·.previous_root)).getD ZERO32, curRoot := (roots.map (·.current_root)).getD ZERO32,
+         computedSync := if boundary then post.next_sync_committee else none }
+
+/-- the monadic result, provided the pure pipeline (the subject of `processEpoch_eq`) gives the same state -/
+def withPipelineCheck (cfg : Config) (s : State) (pipeline : Config → EpochInputs → State → State) (r : SM State) : SM State := do
+  let post ← r
+  let inp ← epochInputsOf cfg s post
+  if pipeline cfg inp s = post then pure post else throw (.oracle "pure pipeline disagrees with the monadic one")
+
 def epochSub (cfg : Config) (agg : AggOracle) (sub : String) (s : State) : Option (SM State) :=
   match sub with
-  | "all" => some (process_epoch cfg agg s)
+  | "all" => some (withPipelineCheck cfg s process_epoch_pure (process_epoch cfg agg s))
   | "justification" => some (process_justification_and_finalization cfg s)
   | "inactivity" => if s.fork = .phase0 then none else some (process_inactivity_updates cfg s)
   | "rewards" => some (process_rewards_and_penalties cfg s)
@@ -80,7 +98,7 @@ def epochSub (cfg : Config) (agg : AggOracle) (sub : String) (s : State) : Optio
 /-- the code-shaped model `M` of a sub-transition, where there is one -/
 def epochSubM (cfg : Config) (agg : AggOracle) (sub : String) (s : State) : Option (SM State) :=
   match sub with
-  | "all" => some (Impl.processEpochM cfg agg s)
+  | "all" => some (withPipelineCheck cfg s Impl.processEpochPure (Impl.processEpochM cfg agg s))
   | "justification" => some (Impl.justificationM cfg s)
   | "inactivity" => if s.fork = .phase0 then none else some (Impl.inactivityM cfg s)
   | "rewards" => if s.fork = .phase0 then some (Impl.rewardsPhase0M cfg s) else some (Impl.rewardsAltairM cfg s)
